@@ -83,7 +83,26 @@ def hkey(h):
     return tuple(h)
 
 
+def f32(x):
+    import struct
+    return struct.unpack("f", struct.pack("f", x))[0]
+
+
+# computed (non-literal) angles: value as the evaluator computes it in double precision from float32 literals
+COMPUTED_ANGLES = [
+    ("0.1f * 7001", f32(0.1) * 7001), ("700.0f + 0.1f", 700.0 + f32(0.1)), ("0.3f * 12345", f32(0.3) * 12345),
+    ("1.7f * 671088", f32(1.7) * 671088), ("67108864.0f + 3", 67108864.0 + 3), ("(0.1f + 0.2f) * 100", (f32(0.1) + f32(0.2)) * 100),
+    ("0.7f / 3", f32(0.7) / 3.0), ("-(0.1f * 333)", -(f32(0.1) * 333)), ("16.5f + 0.001f", 16.5 + f32(0.001)),
+]
+
+
+def aval(a):
+    return a[0] if isinstance(a, list) else a
+
+
 def fang(a):
+    if isinstance(a, list):
+        return a[1]
     s = repr(float(abs(a)))
     return ("-" if a < 0 else "") + s + "f"
 
@@ -283,6 +302,9 @@ def gen_stmts(draw, gs, n, depth, max_q, feats):
         elif c == "rot":
             h = draw(st.sampled_from(act))
             a = draw(st.sampled_from(ANGLES)) * draw(st.sampled_from([1, 1, -1]))
+            if draw(st.integers(0, 2)) == 0:
+                src, v = draw(st.sampled_from(COMPUTED_ANGLES))
+                a = [v, src]
             out.append(["gate", draw(st.sampled_from(ROT)), draw(st.sampled_from(["direct", "fn", "static"])), [h], a])
         elif c == "cx":
             h1 = draw(st.sampled_from(act))
@@ -441,7 +463,8 @@ class Interp:
         for h in hs:
             if self.measured[hkey(h)]:
                 raise ModelError(f"gate on measured qubit {h}")
-        self.ops.append({"kind": g, "hs": [hkey(h) for h in hs], "angle": angle, "live": frozenset(self.live)})
+        self.ops.append({"kind": g, "hs": [hkey(h) for h in hs], "angle": aval(angle) if angle is not None else None,
+                         "live": frozenset(self.live)})
 
     def measure(self, h):
         k = hkey(h)
@@ -695,6 +718,7 @@ def match_ops(expected, qops):
                     return None, f"operation {n}: q[{i}] is shared by live handles {owner[i]} and {h}"
                 hmap[h] = i
                 owner[i] = h
-        if e["kind"] in ("rx", "ry", "rz") and abs(ang - e["angle"]) > 5e-7 + 1e-6 * abs(e["angle"]):
-            return None, f"operation {n}: angle {ang} differs from {e['angle']}"
+        # angles are printed with six decimals: the printed value is within 5e-7 of the angle the simulator rotated by
+        if e["kind"] in ("rx", "ry", "rz") and abs(ang - e["angle"]) > 6e-7:
+            return None, f"operation {n}: printed angle {ang!r} differs from the simulated angle {e['angle']!r}"
     return hmap, None
